@@ -349,6 +349,17 @@ fn thread_body(session: &Session) -> ThreadResult {
 
 const MEMORY_GUARD_KB: u64 = 1_500_000;
 
+/// Does the run's end agree with the expected one? Exit statuses the properties name (0, 0xEE)
+/// must be met exactly; where the reference only knows "the emulator gives up with an error"
+/// (exhausted input, a reserved instruction with the feature off: lace uses 1) any error status
+/// will do.
+pub fn end_agrees(real: &End, expected: &End) -> bool {
+    match (real, expected) {
+        (End::Exit(code), End::Exit(1)) => *code != 0 && *code != 0xEE && *code != 101,
+        _ => real == expected,
+    }
+}
+
 /// Resident set size of this process in KiB (0 if unknown).
 fn resident_kb() -> u64 {
     std::fs::read_to_string("/proc/self/statm")
